@@ -104,6 +104,53 @@ if harness_ok and rc_default == 0:
 else:
     inconclusive.append("differential digests skipped (harness or default build unavailable)")
 
+# ---------------------------------------------------------------- 2b. ambient inputs: clock and environment
+# The parsers are functions of their input bytes. A std-only code path can read what no_std cannot: the clock,
+# the environment. Each buildable configuration's digest program is therefore re-run (i) under an LD_PRELOAD
+# shim in which every clock read jumps one hour ahead (probes/timewarp/warp.c) and (ii) with a scrambled
+# environment and working directory; the digest lines must not move, and the number of clock reads is recorded.
+if digests.get("default"):
+    warp = os.path.join(OUT, "libwarp.so")
+    rc, so, se = run(["cc", "-shared", "-fPIC", "-O1", "-o", warp, os.path.join(ROOT, "probes/timewarp/warp.c"), "-ldl"])
+    if rc != 0:
+        inconclusive.append("time-warp shim does not build: " + se[-300:])
+    else:
+        corpus = os.path.join(OUT, "corpus.bin")
+        clock_reads = {}
+        for name in list(digests.keys()):
+            exe = os.path.join(OUT, "digest-" + name, "release/c18digest")
+            wlog = os.path.join(OUT, "warp-%s.log" % name)
+            if os.path.exists(wlog):
+                os.remove(wlog)
+            envw = dict(ENV, LD_PRELOAD=warp, VERIF_WARP_LOG=wlog)
+            rc, so, se = run([exe, corpus], env=envw)
+            try:
+                clock_reads[name] = int(open(wlog).read().strip())
+            except Exception:
+                clock_reads[name] = None
+            if rc != 0:
+                violations.append(("c18:digest:%s:program-died-under-time-warp" % name, {"exit": rc, "stderr": se[-800:]}))
+            elif so.splitlines() != digests[name]:
+                lines = so.splitlines()
+                first = next((i for i, (a, b) in enumerate(zip(digests[name], lines)) if a != b), min(len(digests[name]), len(lines)))
+                violations.append(("c18:digest:%s:results-depend-on-the-clock" % name, {"first_differing_line": first, "real_clock": digests[name][first] if first < len(digests[name]) else None,
+                                   "warped_clock": lines[first] if first < len(lines) else None, "clock_reads": clock_reads[name],
+                                   "what": "same program, same corpus; every clock read advanced one hour (LD_PRELOAD probes/timewarp/warp.c); the no_std build has no clock, so configurations disagree"}))
+            else:
+                observed["ambient.%s.timewarp.equal" % name] = len(so.splitlines())
+            envs = {"PATH": "/nonexistent", "TZ": "Pacific/Kiritimati", "LANG": "tr_TR.UTF-8", "LC_ALL": "tr_TR.UTF-8", "RUST_LOG": "trace", "RUST_BACKTRACE": "full",
+                    "TLS_PARSER_DEBUG": "1", "SSLKEYLOGFILE": "/dev/null", "HOME": "/nonexistent", "TMPDIR": "/nonexistent", "COLUMNS": "1"}
+            rc, so, se = run([exe, corpus], env=envs, cwd="/")
+            if rc != 0:
+                violations.append(("c18:digest:%s:program-died-under-scrambled-environment" % name, {"exit": rc, "stderr": se[-800:]}))
+            elif so.splitlines() != digests[name]:
+                lines = so.splitlines()
+                first = next((i for i, (a, b) in enumerate(zip(digests[name], lines)) if a != b), min(len(digests[name]), len(lines)))
+                violations.append(("c18:digest:%s:results-depend-on-the-environment" % name, {"first_differing_line": first, "environment": envs}))
+            else:
+                observed["ambient.%s.environment.equal" % name] = len(so.splitlines())
+        observed["ambient.clock_reads"] = json.dumps(clock_reads, sort_keys=True)
+
 # ---------------------------------------------------------------- 3. Send + Sync build probe
 rc, so, se = run(["cargo", "check", "--offline", "--manifest-path", os.path.join(ROOT, "probes/sendsync/Cargo.toml"), "--target-dir", os.path.join(OUT, "sendsync")])
 if rc == 0:
